@@ -32,7 +32,9 @@ from .value import (
 def is_universally_assignable(value: Value, target_value: Value) -> bool:
     if value is NO_RETURN_VALUE or isinstance(value, AnyValue):
         return True
-    elif value == TypedValue(type) and isinstance(target_value, SubclassValue):
+    elif value == TypedValue(type) and all(
+        isinstance(subval, SubclassValue) for subval in flatten_values(target_value)
+    ):
         return True
     elif isinstance(value, AnnotatedValue):
         return is_universally_assignable(value.value, target_value)
